@@ -244,18 +244,86 @@ def _worker(chunk):
     return out
 
 
+def _run_chunk_isolated(chunk, timeout):
+    """Run a chunk in a fresh single-worker pool; returns results or None when the
+    worker died (segfault / abort) or did not finish in time."""
+    from concurrent.futures import ProcessPoolExecutor
+    from concurrent.futures.process import BrokenProcessPool
+    ctx = multiprocessing.get_context("fork")
+    ex = ProcessPoolExecutor(max_workers=1, mp_context=ctx)
+    try:
+        fut = ex.submit(_worker, chunk)
+        try:
+            return fut.result(timeout=timeout)
+        except (BrokenProcessPool, Exception):
+            return None
+    finally:
+        for p in list(getattr(ex, "_processes", {}).values()):
+            try:
+                p.kill()
+            except Exception:
+                pass
+        ex.shutdown(wait=False, cancel_futures=True)
+
+
+def _crash_result(case):
+    sig = "crash:" + (case.lstrip("#").split("|")[0].split(" ")[0][:40] or "case")
+    return ("crash", [{"signature": sig, "what": "the interpreter crashed (fatal signal) or hung while executing this case "
+                       "on the real code", "no_shrink": True}], ["crash"])
+
+
 def run_impl_all(pm, cases, procs):
+    """Run every case on the real code.  Workers are forked processes; a worker
+    that dies (segfault in the extension) or hangs does not take the check down:
+    its chunk is re-run case by case in isolation and the fatal case is reported
+    as an oracle hit with signature `crash:…`."""
     global _PM
     _PM = pm
     if len(cases) < 50 or procs <= 1:
-        return _worker(cases)
-    n = min(procs, max(1, len(cases) // 25))
-    size = max(1, min(200, len(cases) // (n * 2) + 1))
-    chunks = [cases[i:i + size] for i in range(0, len(cases), size)]
-    ctx = multiprocessing.get_context("fork")
-    with ctx.Pool(n) as pool:
-        res = pool.map(_worker, chunks)
-    return [x for ch in res for x in ch]
+        r = _run_chunk_isolated(cases, 600) if cases else []
+        if r is not None:
+            return r
+        chunks, results = [cases], {0: None}
+    else:
+        from concurrent.futures import ProcessPoolExecutor, wait
+        n = min(procs, max(1, len(cases) // 25))
+        size = max(1, min(200, len(cases) // (n * 2) + 1))
+        chunks = [cases[i:i + size] for i in range(0, len(cases), size)]
+        ctx = multiprocessing.get_context("fork")
+        results = {}
+        ex = ProcessPoolExecutor(max_workers=n, mp_context=ctx)
+        try:
+            futs = {ex.submit(_worker, ch): i for i, ch in enumerate(chunks)}
+            budget = float(os.environ.get("VERIF_IMPL_TIMEOUT", "1500"))
+            done, pending = wait(list(futs), timeout=budget)
+            for f in done:
+                try:
+                    results[futs[f]] = f.result()
+                except Exception:
+                    results[futs[f]] = None
+            for f in pending:
+                results[futs[f]] = None
+        finally:
+            for p in list(getattr(ex, "_processes", {}).values()):
+                try:
+                    p.kill()
+                except Exception:
+                    pass
+            ex.shutdown(wait=False, cancel_futures=True)
+    out = []
+    for i, ch in enumerate(chunks):
+        r = results.get(i)
+        if r is None:
+            # the pool broke: re-run the chunk in isolation, and only if it dies again
+            # find the fatal case(s) by running it case by case
+            r = _run_chunk_isolated(ch, 600)
+            if r is None:
+                r = []
+                for c in ch:
+                    one = _run_chunk_isolated([c], 120)
+                    r.append(one[0] if one else _crash_result(c))
+        out.extend(r)
+    return out
 
 
 # --------------------------------------------------------------------------
